@@ -17,7 +17,8 @@ Open Scope Z_scope.
 Definition C28_statement : Prop :=
   forall e t require col_values o, upsert e t require col_values o = ref_upsert e t require col_values o.
 
-(* The code violates it in one situation; the faithful model does too. *)
+(* Both deviations found while building this check were repaired in /repo (commits e346da4, 060dc6b); the
+   witnesses are kept below as regression examples of the model that follows the repaired code. *)
 Definition ex_schema :=
   [{| c_id := 1; c_data := true; c_default := VText [] |}; {| c_id := 3; c_data := true; c_default := VText [] |}].
 Definition ex_env := {| e_schema := ex_schema; e_conv := fun _ v => v; e_key := fun _ v => Some v |}.
@@ -25,16 +26,18 @@ Definition ex_default := {| o_on_many := OnFirst; o_update := true; o_add := tru
 Definition ex_all := {| o_on_many := OnAll; o_update := true; o_add := true; o_allow_empty := true |}.
 Definition ex_table1 : table := [(1, [(1, VText [97]); (3, VText [99])])].
 
-(* (1) Two input rows update record 1 (empty require); the last one writes the value the record already has
-   ("c"), the first one writes "x".  The reference leaves "c"; the code trims the last entry as unchanged and
-   the earlier one wins: the record ends with "x". *)
-Theorem C28_refuted_stale_update :
+(* Regression (repaired by commit 060dc6b: a BulkUpdateRecord naming a row more than once keeps the last
+   occurrence): two input rows update record 1 (empty require); the last one writes the value the record already
+   has ("c"), the first one writes "x".  Code and reference now both leave "c". *)
+Example C28_stale_update_regression :
   upsert ex_env ex_table1 [] [(3, [VText [120]; VText [99]])] ex_all
-    = Ok ([(1, [(1, VText [97]); (3, VText [120])])],
-          {| r_record_ids := [[1]; [1]]; r_add_ids := []; r_update_ids := [[1]; [1]] |})
+    = Ok (ex_table1, {| r_record_ids := [[1]; [1]]; r_add_ids := []; r_update_ids := [[1]; [1]] |})
   /\ ref_upsert ex_env ex_table1 [] [(3, [VText [120]; VText [99]])] ex_all
-    = Ok (ex_table1, {| r_record_ids := [[1]; [1]]; r_add_ids := []; r_update_ids := [[1]; [1]] |}).
-Proof. split; vm_compute; reflexivity. Qed.
+    = Ok (ex_table1, {| r_record_ids := [[1]; [1]]; r_add_ids := []; r_update_ids := [[1]; [1]] |})
+  /\ upsert ex_env ex_table1 [] [(3, [VText [99]; VText [120]])] ex_all
+    = Ok ([(1, [(1, VText [97]); (3, VText [120])])],
+          {| r_record_ids := [[1]; [1]]; r_add_ids := []; r_update_ids := [[1]; [1]] |}).
+Proof. repeat split; vm_compute; reflexivity. Qed.
 
 (* Regression (the second deviation found here was repaired in /repo by commit e346da4): two input rows that ask
    for a new record under the same row id, or a required row id 0, are now rejected by the code like by the
@@ -49,24 +52,13 @@ Example C28_new_id_regression :
            {| r_record_ids := [[3]; [2]]; r_add_ids := [3; 2]; r_update_ids := [] |}).
 Proof. repeat split; vm_compute; reflexivity. Qed.
 
-Theorem C28_refuted : ~ C28_statement.
-Proof.
-  intros H. specialize (H ex_env ex_table1 [] [(3, [VText [120]; VText [99]])] ex_all).
-  destruct C28_refuted_stale_update as [E1 E2]. rewrite E1, E2 in H. discriminate H.
-Qed.
-
-(* Everywhere else the property holds.  The hypothesis is stated on the reference's own per-row decisions:
-   no_stale_update: whenever some input row really changes a record, the last input row updating that record
-                    changes it too (in particular: no record is updated by two input rows). *)
-Theorem upsert_refines_reference_partial : forall e t require col_values o,
-  no_stale_update e t require col_values o = true ->
+(* The property at full strength, for ALL inputs. *)
+Theorem upsert_refines_reference : forall e t require col_values o,
   upsert e t require col_values o = ref_upsert e t require col_values o.
 Proof. exact upsert_eq. Qed.
 
-(* the hypothesis holds when no record is updated by two input rows *)
-Theorem no_stale_when_updates_distinct : forall e t (us : list upd),
-  NoDup (map fst us) -> stale_free e t us = true.
-Proof. exact stale_free_distinct. Qed.
+Theorem C28_holds : C28_statement.
+Proof. exact upsert_eq. Qed.
 
 (* Each argument error (bad on_many, empty require without allow_empty_require, mismatched lengths, duplicate
    require keys) rejects, and the table is unchanged -- for ALL inputs; and every rejection that is not raised
@@ -84,19 +76,18 @@ Theorem upsert_any_rejection_leaves_table : forall e t require col_values o x,
   upsert e t require col_values o = Err x -> table_after t (upsert e t require col_values o) = t.
 Proof. exact err_unchanged. Qed.
 
-(* AddOrUpdateRecord: with one input row the hypothesis always holds; full strength. *)
+(* AddOrUpdateRecord, full strength. *)
 Theorem upsert_single_refines_reference : forall e t require col_values o,
   upsert_single e t require col_values o = ref_single e t require col_values o.
 Proof. exact single_eq. Qed.
 
-(* Non-vacuity: three input rows on a table with a duplicate key: "a" matches records 1 and 2 (on_many = all),
-   "z" matches nothing and is added as record 5, "b" matches record 4; the hypothesis holds. *)
+(* A concrete run: three input rows on a table with a duplicate key: "a" matches records 1 and 2 (on_many = all),
+   "z" matches nothing and is added as record 5, "b" matches record 4. *)
 Definition ex_table2 : table :=
   [(1, [(1, VText [97]); (3, VText [99])]); (2, [(1, VText [97]); (3, VText [100])]); (4, [(1, VText [98]); (3, VText [99])])].
 Example C28_nonvacuous :
   let require := [(1, [VText [97]; VText [122]; VText [98]])] in
   let col_values := [(3, [VText [120]; VText [121]; VText [119]])] in
-  no_stale_update ex_env ex_table2 require col_values ex_all = true /\
   upsert ex_env ex_table2 require col_values ex_all
   = Ok ([(1, [(1, VText [97]); (3, VText [120])]); (2, [(1, VText [97]); (3, VText [120])]);
          (4, [(1, VText [98]); (3, VText [119])]); (5, [(1, VText [122]); (3, VText [121])])],
